@@ -175,6 +175,9 @@ type c11Loop struct {
 	shown   []int
 	depBase []int // per operator: items received before the current deployment
 	failure string
+	// split assignment: whether the first round of a deployment is empty, and whether the source is being read
+	firstEmpty bool
+	reading    bool
 }
 
 // deployRunner calls the real HandleDeploy (the first or a further time on the same runner), replaces the 200ms
@@ -194,16 +197,52 @@ func (l *c11Loop) deployRunner() (fresh bool) {
 	}
 	l.sr.VerifSetWatermarkTicks(l.ticks)
 	fresh = time.Since(t0) < 120*time.Millisecond
-	if err := l.sr.HandleAssignSplits([]*workerpb.SourceSplit{{}}); err != nil {
-		l.failure = "assign-error"
+	// the first assignment round of the deployment (possibly empty: more runners than splits); it also wakes the new event loop
+	l.reading = false
+	if s := l.assign(!l.firstEmpty); s != "ok" && l.failure == "" {
+		l.failure = s
 	}
 	return fresh
 }
 
-func newC11Loop(n, k int) *c11Loop {
+// assign is one split-assignment round (HandleAssignSplits): with a split (the source starts being read) or empty.
+// It returns once the event loop has taken the assignment: a second, identical assignment is queued behind it (the
+// channel holds one), which can only be accepted after the first was consumed; assigning the same splits again changes nothing.
+func (l *c11Loop) assign(nonEmpty bool) string {
+	var splits []*workerpb.SourceSplit
+	if nonEmpty {
+		splits = []*workerpb.SourceSplit{{}}
+	}
+	for round := 0; round < 2; round++ {
+		errc := make(chan error, 1)
+		go func() { errc <- l.sr.HandleAssignSplits(splits) }()
+		deadline := time.After(10 * time.Second)
+	wait:
+		for {
+			var yield chan c11Cmd
+			if l.reading {
+				yield = l.reader.cmd // the loop may be inside ReadEvents: an empty read brings it back to its select
+			}
+			select {
+			case err := <-errc:
+				if err != nil {
+					return "assign-error"
+				}
+				break wait
+			case yield <- c11Cmd{}:
+			case <-deadline:
+				return "timeout"
+			}
+		}
+	}
+	l.reading = l.reading || nonEmpty
+	return "ok"
+}
+
+func newC11Loop(n, k int, firstEmpty bool) *c11Loop {
 	k = max(k, 1)
 	for attempt := 0; ; attempt++ {
-		l := &c11Loop{ticks: make(chan time.Time), done: make(chan error, 1), n: max(n, 1), k: k,
+		l := &c11Loop{ticks: make(chan time.Time), done: make(chan error, 1), n: max(n, 1), k: k, firstEmpty: firstEmpty,
 			ks: partitioning.NewKeySpace(8, k), shown: make([]int, k), depBase: make([]int, k)}
 		for i := 0; i < k; i++ {
 			l.sinks = append(l.sinks, &c11LoopSink{})
@@ -235,7 +274,7 @@ func (l *c11Loop) redeploy() string {
 		return l.failure
 	}
 	deadline := time.Now().Add(10 * time.Second)
-	for !l.reader.parked.Load() {
+	for l.reading && !l.reader.parked.Load() {
 		if time.Now().After(deadline) {
 			l.failure = "timeout"
 			return "timeout"
@@ -271,6 +310,9 @@ func (l *c11Loop) read(raws []string) string {
 	if l.failure != "" {
 		return l.failure
 	}
+	if !l.reading {
+		return "no-split"
+	}
 	evs := make([][]byte, len(raws))
 	for i, r := range raws {
 		evs[i] = []byte(r)
@@ -295,6 +337,14 @@ func (l *c11Loop) read(raws []string) string {
 	}
 }
 
+// yieldChan: an empty read for a loop that may be inside ReadEvents (nil, i.e. never ready, while nothing is read)
+func (l *c11Loop) yieldChan() chan c11Cmd {
+	if l.reading {
+		return l.reader.cmd
+	}
+	return nil
+}
+
 func (l *c11Loop) tick() string {
 	if l.failure != "" {
 		return l.failure
@@ -306,7 +356,7 @@ func (l *c11Loop) tick() string {
 		case l.ticks <- time.Now():
 			l.items = append(l.items, c11Item{})
 			return "ok"
-		case l.reader.cmd <- c11Cmd{}:
+		case l.yieldChan() <- c11Cmd{}:
 		case <-deadline:
 			l.failure = "timeout"
 			return "timeout"
@@ -603,11 +653,13 @@ func (e *c11Env) await(want int) ([]string, bool) {
 	return got, true
 }
 
-func (e *c11Env) theLoop() *c11Loop {
+func (e *c11Env) theLoop() *c11Loop { return e.theLoopWith(false) }
+
+func (e *c11Env) theLoopWith(firstEmpty bool) *c11Loop {
 	if e.loop == nil {
 		n, _ := strconv.Atoi(e.hdr[3])
 		k, _ := strconv.Atoi(e.hdr[4])
-		e.loop = newC11Loop(n, k)
+		e.loop = newC11Loop(n, k, firstEmpty)
 	}
 	return e.loop
 }
@@ -650,6 +702,20 @@ func (e *c11Env) step(op string) string {
 		return e.theLoop().drain()
 	case "ldeploy":
 		return e.theLoop().redeploy()
+	case "lassign":
+		// a split-assignment round: "lassign 0" = empty, "lassign 1" = one split. As the first loop operation it is the
+		// first round of the deployment
+		if e.loop == nil {
+			l := e.theLoopWith(f[1] == "0")
+			if l.failure != "" {
+				return l.failure
+			}
+			return "ok"
+		}
+		if e.loop.failure != "" {
+			return e.loop.failure
+		}
+		return e.loop.assign(f[1] != "0")
 	case "revs":
 		// a keyed-event placeholder resolved with this batch, sent through the real sendOperatorEvent
 		e.runner()
@@ -889,7 +955,7 @@ func propC11() *lib.Prop {
 		Rule: "cases = (a) event-timestamp sequences (ordered or not, with ties, zero-time and large values) fed to the real Watermarker with CurrentWatermark sampled at arbitrary points; " +
 			"(b) keyed events (whose handler response registers timers) and watermark messages from 1-4 runners in scripted interleavings sent to a real Operator (one key group, in-memory DKV, batch sizes 1-4); compared: " +
 			"(a') the same sequences sent through the real SourceRunner.sendOperatorEvent (placeholders resolved with event batches, watermark placeholders stamped when sent) to a recording operator; " +
-			"(c) the runner's real event loop (Start, HandleDeploy — also a second time on the same runner, whose watermarker survives —, processEvents, the send goroutine, key-event fetcher and operator batching with batch sizes 1-5 and no batch delay, 1-3 operators with keyed events routed by key and watermarks broadcast) fed by a scripted source and harness-controlled watermark ticks: the stream each operator receives, every value read at delivery, against the delivered-stream model; " +
+			"(c) the runner's real event loop (Start, HandleDeploy, HandleAssignSplits rounds — a first EMPTY assignment with ticks of the idle runner, later rounds with or without a split — — also a second time on the same runner, whose watermarker survives —, processEvents, the send goroutine, key-event fetcher and operator batching with batch sizes 1-5 and no batch delay, 1-3 operators with keyed events routed by key and watermarks broadcast) fed by a scripted source and harness-controlled watermark ticks: the stream each operator receives, every value read at delivery, against the delivered-stream model; " +
 			"checkpoints (barriers of all runners) and recovery of the same Operator from the last checkpoint on disk, timer caches of 0 bytes / 1-5 keys through the accessor VerifUseTimerCache, source completions (SourceComplete of a runner while others go on) and redeployments of the same Operator (HandleDeploy again, fresh storage) at arbitrary points; " +
 			"every ProcessEventBatchRequest (Watermark field, keyed and TimerExpired events in order) and the registry's composite after each message; non-trivial = at least 2 runners whose latest watermarks differ at some point and a timer fired, or an unordered timestamp sequence with at least one sample; " +
 			"fixed cases enumerate all interleavings of 2-3 runners x up to 2-3 messages",
@@ -936,6 +1002,11 @@ func propC11() *lib.Prop {
 			// event; an older replayed event does not lower it)
 			cs = append(cs, lib.Case{Header: "M C11 0 1 2 1", Tags: []string{"loop", "multiop", "runner-redeploy"},
 				Ops: []string{"lread 50:6b", "ldrain", "ltick", "ldrain", "ldeploy", "ltick", "ldrain", "lread 10:61", "ldrain", "ltick", "ldrain", "lread 60:6b", "ldrain", "ltick", "ldrain"}})
+			// split-assignment rounds: the runner's first assignment is empty (more runners than splits), it ticks while idle,
+			// a later round hands it a split; an idle runner's watermark is what its watermarker says (time.Time{} - 1ns), and
+			// it never decreases when the runner starts reading; a later empty round changes nothing either
+			cs = append(cs, lib.Case{Header: "M C11 0 1 1 1", Tags: []string{"loop", "assign"},
+				Ops: []string{"lassign 0", "ltick", "ltick", "ldrain", "lassign 1", "lread 100", "ltick", "ldrain", "lassign 0", "ltick", "lread 50", "ltick", "ldrain"}})
 			// before any watermark message the handler is told time.Time{}; a runner that saw no event reports below the epoch
 			// (regression case of finding D58, repaired by 204a1f7: before any watermark message the handler is told the epoch)
 			cs = append(cs, lib.Case{Header: "M C11 0 2 2 1", Tags: []string{"initial", "D58"},
@@ -961,6 +1032,18 @@ func propC11() *lib.Prop {
 					c.Tags = append(c.Tags, "runner-redeploy")
 				}
 				lkeys := []string{"6b", "61", "62", "6162", "00", "ff01"}
+				// split-assignment rounds: a third of the cases start with an EMPTY assignment (idle runner: ticks only)
+				// and get their split later; further rounds (empty or not) arrive at arbitrary points
+				idleFirst := r.Chance(1, 3)
+				hasSplit := true
+				if idleFirst {
+					c.Tags = append(c.Tags, "assign")
+					c.Ops = append(c.Ops, "lassign 0")
+					for x := r.Range(1, 4); x > 0; x-- {
+						c.Ops = append(c.Ops, "ltick")
+					}
+					c.Ops = append(c.Ops, "ldrain", "lassign 1")
+				}
 				scale := lib.Pick(r, []int64{1, 1000, 1_000_000_000})
 				cur := int64(r.Intn(10))
 				steps := r.Range(4, 25)
@@ -973,6 +1056,19 @@ func propC11() *lib.Prop {
 								cur = int64(r.Intn(10)) // the source replays older events after the redeployment
 							}
 						}
+					}
+					if r.Chance(1, 12) {
+						a := r.Intn(2)
+						c.Ops = append(c.Ops, fmt.Sprintf("lassign %d", a))
+						if a == 1 {
+							hasSplit = true
+						} else if len(c.Ops) == 1 {
+							hasSplit = false // the deployment's first round is empty: nothing to read yet
+						}
+					}
+					if !hasSplit {
+						c.Ops = append(c.Ops, "ltick") // an idle runner only ticks
+						continue
 					}
 					switch r.Intn(5) {
 					case 0, 1:
